@@ -18,6 +18,17 @@ from .vals import SObj, SFunc, SList, SNs, Unsupported, fresh_bool, fresh_name
 from .expr import as_bool, bnot, band
 
 
+class _GLit(ast.expr):
+    """an already evaluated value re-entering evaluation"""
+    _fields = ()
+
+    def __init__(self, v):
+        super().__init__()
+        self.v = v
+        self.lineno = 0
+        self.col_offset = 0
+
+
 class Op:
     """opaque term with a canonical text"""
     __slots__ = ("text", "kind")
@@ -169,6 +180,9 @@ class GlueMixin:
                 return Op(n.id, "global")
         return super().e_Name(n, st)
 
+    def e__GLit(self, n, st):
+        return n.v
+
     def e_Call(self, n, st):
         if not self.glue():
             return super().e_Call(n, st)
@@ -177,6 +191,11 @@ class GlueMixin:
             if n.func.id in GLUE_SPEC:
                 args = [self.eval(a, st) for a in n.args]
                 return getattr(self, "g_" + n.func.id)(args, st)
+            if n.func.id == "len" and len(n.args) == 1 and not self.spec:
+                v = self.eval(n.args[0], st)
+                if isinstance(v, Op):
+                    return Op("len(%s)" % v.text)      # the size of an opaque object: an opaque number
+                return super().e_Call(ast.Call(func=n.func, args=[_GLit(v)], keywords=[]), st)
             return super().e_Call(n, st)
         t = ast.unparse(n.func)
         if t.startswith("logging.") or t == "print":
